@@ -352,6 +352,43 @@ def build() -> Check:
           "checkpoint requested afterwards is enqueued for nobody and its caller waits for ever")
     ck.ob("R6.stop-releases-queued-waiters", c_cbf, {"_checkpoint_queue", "_overflow_queue"} <= drained,
           f"when the consumer leaves its loop because it was told to stop it drains {sorted(drained) or 'no queue'}: a synchronous caller already queued is never released")
+    # R5 the last hop: LambdaClient hands the batch to the service API. The batcher rules above end at `self._service_client.checkpoint(...)`; what the client
+    # does with its arguments is the same clause (nothing lost, duplicated or reordered; the token of the previous response is presented): every argument of
+    # the API call is the corresponding parameter itself, `Updates` is one wire dictionary per update in the order given, and the response is decoded whole.
+    lc = prog.cls("lambda_service", "LambdaClient")
+    PASS = {"checkpoint": ("checkpoint_durable_execution", {"DurableExecutionArn": "durable_execution_arn", "CheckpointToken": "checkpoint_token"}, "CheckpointOutput"),
+            "get_execution_state": ("get_durable_execution_state", {"DurableExecutionArn": "durable_execution_arn", "CheckpointToken": "checkpoint_token",
+                                                                    "Marker": "next_marker", "MaxItems": "max_items"}, "StateOutput")}
+
+    def strip_cast(e):
+        while isinstance(e, ast.Call) and isinstance(e.func, ast.Name) and e.func.id == "cast" and len(e.args) == 2:
+            e = e.args[1]
+        return e
+    n_api = 0
+    for mname, (api, table, out_cls) in PASS.items():
+        fi = lc.methods.get(mname)
+        if fi is None:
+            raise AnalysisError(f"LambdaClient.{mname} not found")
+        calls = [c for c in ast.walk(fi.node) if isinstance(c, ast.Call) and isinstance(c.func, ast.Attribute) and c.func.attr == api]
+        if len(calls) != 1:
+            raise AnalysisError(f"LambdaClient.{mname}: expected one call of {api}, found {len(calls)}")
+        n_api += 1
+        kws = {k.arg: strip_cast(k.value) for k in calls[0].keywords if k.arg}
+        badk = [f"{k}={ast.unparse(kws[k]) if k in kws else '<missing>'} (expected the parameter `{pname}`)" for k, pname in table.items()
+                if not (k in kws and isinstance(kws[k], ast.Name) and kws[k].id == pname)]
+        rebound = sorted({t.id for st in ast.walk(fi.node) if isinstance(st, (ast.Assign, ast.AugAssign, ast.AnnAssign))
+                          for t in ast.walk(st.targets[0] if isinstance(st, ast.Assign) else st.target) if isinstance(t, ast.Name) and t.id in set(table.values()) | {"updates"}})
+        if mname == "checkpoint":
+            u = kws.get("Updates")
+            ok_u = (isinstance(u, ast.ListComp) and len(u.generators) == 1 and not u.generators[0].ifs and isinstance(u.generators[0].iter, ast.Name)
+                    and u.generators[0].iter.id == "updates" and isinstance(u.generators[0].target, ast.Name) and isinstance(u.elt, ast.Call)
+                    and ast.unparse(u.elt) == f"{u.generators[0].target.id}.to_dict()")
+            if not ok_u:
+                badk.append(f"Updates={ast.unparse(u) if u is not None else '<missing>'} (expected one `.to_dict()` per element of `updates`, all of them, in order)")
+        decoded = [c for c in ast.walk(fi.node) if isinstance(c, ast.Call) and ast.unparse(c.func) == f"{out_cls}.from_dict"]
+        ck.ob("R5.client-passes-the-call-through", fn_construct(fi), not badk and not rebound and len(decoded) == 1,
+              "; ".join(badk) or (f"parameters re-bound before the call: {rebound}" if rebound else f"the response is not decoded through {out_cls}.from_dict"), cell=mname)
+    ck.floor("service_api_calls", n_api, 2)
     return ck
 
 
